@@ -220,7 +220,20 @@ def main():
                 chk.held(h(["cast", src, pos]))
                 chk.count("cast_cases_identical_under_9_tracings")
             else:
-                chk.violation(f"C14|outcome-depends-on-tracing|{classify_split(by_t)}|cast-to-non-primitive-type", {"source": src, "type": tstr, "value": v, "value_conforms": pos < nconf, "outcomes": by_t})
+                # a cast that is one bare builtin (no per-item check: every item is Data) followed by the
+                # up-cast back is the recorded cast-cancellation defect (listData(unListData d) -> d)
+                import re as _re
+
+                aliases = dict(_re.findall(r"(?m)^(?:pub )?type (\w+) =\s*(.+)$", src))
+                flat = tstr.replace(" ", "")
+                for _ in range(8):  # expand aliases (`type T3 = List<Data>`)
+                    nxt = _re.sub(r"\b(\w+)\b", lambda m: aliases.get(m.group(1), m.group(1)).replace(" ", ""), flat)
+                    if nxt == flat:
+                        break
+                    flat = nxt
+                bare = flat in ("List<Data>", "Pairs<Data,Data>", "List<Pair<Data,Data>>")
+                label = "F3_cast_cancel_expect" if bare else "cast-to-non-primitive-type"
+                chk.violation(f"C14|outcome-depends-on-tracing|{classify_split(by_t)}|{label}", {"source": src, "type": tstr, "value": v, "value_conforms": pos < nconf, "outcomes": by_t})
     # harvested unit tests: pass/fail verdict under the nine settings
     jobs, meta = A.jobs_for_harvested(A.ALL_TRACINGS, detailed=True, limit=None if not quick else 200)
     res = A.run(jobs, timeout=600)
